@@ -289,13 +289,13 @@ class C07(Prop):
     title = "Literals denote the values they spell"
     manifest = dict(
         technique='Lean 4 model of celstr()/celbytes() (quote slicing, ordered-alternation tokeniser of CEL_ESCAPES_PAT, expand) and of IntType/UintType text reading in both runners; theorems for ALL literal bodies, ALL strings, ALL byte strings and ALL digit strings; pattern source, DOTALL flag, CEL_ESCAPES table and the lark literal terminals regenerated from the source + bridge (decide); differential correspondence vs. the Lean driver over an adversarial alphabet x 8 quoting styles x {function, interpreter, compiled}; independent reference decoder/encoder oracle',
-        text='proof: celstr/celbytes of a token equal the CEL reference decoder for every valid body in every cooked/raw style (celstr_eq_spelled, celbytes_eq_spelled, celstr_raw, celbytes_raw); encode-then-decode is the identity for ALL strings and ALL byte strings (literal_roundtrip, bytes_roundtrip); every decimal/hex int and uint spelling evaluates to its positional value or a range error, identically in the compiled runner (int_literal_*, uint_literal_*, transpiled_*); lexing by lark and float() are delegated and corresponded',
+        text='proof: celstr/celbytes of a token equal the CEL reference decoder for every valid body in every cooked/raw style (celstr_eq_spelled, celbytes_eq_spelled, celstr_raw, celbytes_raw); encode-then-decode is the identity for ALL strings and ALL byte strings (literal_roundtrip, bytes_roundtrip); every decimal/hex int and uint spelling evaluates to its positional value or a range error, identically in the compiled runner (int_literal_*, uint_literal_*, transpiled_*); the lexer step: Python-re backtracking semantics of the terminal regexes (syntax trees regenerated from cel.lark via re._parser) match the WHOLE encoded literal for all strings / byte strings / digit strings (lex_string, lex_bytes, lex_int_*, lex_uint_*, *_roundtrip_lexed); the choice among terminals by lark and float() are delegated and corresponded',
         note="Lean kernel; propext/Quot.sound/Classical.choice only; trusted: lark's lexer cuts the token its terminal regex describes (Python re backtracking), Python float() on FLOAT_LIT text, eval(repr(v)) == v for the str/bytes value the transpiler pastes, CPython int() incl. its 4300-digit limit (modelled); non-ASCII decimal digits after a backslash (\\d is Unicode-aware) are outside the model",
         ref='DESIGN.md §5 C07')
-    lean_targets = ["Cel.Props.C07", "Cel.Bridge.Str"]
+    lean_targets = ["Cel.Props.C07", "Cel.Bridge.Str", "Cel.Bridge.Lex"]
     audit_namespaces = ["Cel.Props.C07", "Cel.Bridge"]
-    gen_names = ["Str"]
-    trusted = ["lark's lexer cuts exactly the token that the terminal regular expression describes (Python `re` backtracking on the lazy body); the regex sources are compared with the ones the model was written for (Cel.Bridge.lit_terminals)",
+    gen_names = ["Str", "Lex"]
+    trusted = ["lark's lexer applies the terminal's regular expression with re.match at the token start and picks the terminal the grammar's priorities give (the match of ONE terminal's regex is modelled: Cel.Lex.run, trees regenerated through Python's re._parser and compared in Cel.Bridge.lex_terminals; `lex` cases compare re.match on the live terminals with the model and with lark's own lexer)",
                "Python float() maps a FLOAT_LIT text to the nearest double (both runners hand the text to float()/the Python parser); compared against float() on every float case",
                "eval(repr(v)) == v for the StringType/BytesType value pasted into the transpiled source",
                "CPython int(str) / int literal semantics incl. sys.int_max_str_digits = 4300 (modelled as `maxDigits`)",
@@ -305,7 +305,11 @@ class C07(Prop):
             "near-miss: \\400 \\999 \\x4 \\u12 \\UFFFFFFFF \\U00110000 \\ud800), and encodings of random values by the harness's own "
             "encoder with a random escape form per character; x 4 quote kinds x raw/cooked x prefix letter case x {celstr/celbytes "
             "directly, interpreter, compiled runner}; int/uint: boundary values of int64/uint64 +-2 in decimal and hex, sign, 0-6 leading "
-            "zeros, hex letter case, over-range and 4300-digit spellings; floats: repr/exponent forms of special and random doubles. "
+            "zeros, hex letter case, over-range and 4300-digit spellings, every boundary value in both spellings with/without sign and leading zero; "
+            "floats: repr/exponent forms of special and random doubles + the grid mantissa shape x exponent shape (sign, case, leading zeros); "
+            "runner cases of valid literals also inside a larger expression ((x), [x], [x, x], [0x10, x, '$$q{}%s{{$a%%']) and with template/format "
+            "metacharacters ($ { } % motifs); `lex` cases: re.match of the live terminal regex on the literal text (+ junk suffix / another terminal) "
+            "vs the Lean matcher, whole-literal match demanded for valid literals and agreement with lark's lexer. "
             "non-trivial = distinct case whose text contains an escape, a quote/backslash/line break/non-ASCII character in the body, "
             "or (numbers) a leading zero, a hex spelling, a sign, or a value within 2 of a range boundary")
 
